@@ -5,6 +5,7 @@
 import TshVerif.Model.Lexer
 import TshVerif.Model.Sexp
 import TshVerif.Model.ConvBash
+import TshVerif.Model.ConvBatch
 import TshVerif.Model.Parser
 import TshVerif.Model.Cli
 
@@ -126,7 +127,23 @@ def handleCli (xs : List String) : String :=
     | [] => "BADREQ"
   | _ => "BADREQ"
 
+/-- FULLBATCH: the whole model pipeline, source files -> batch script -/
+def handleFullBatch (args : List String) : String :=
+  match parseArgs args with
+  | none => "BADREQ"
+  | some (fs, m) =>
+    match Parser.parse fs m with
+    | .ok p _ =>
+      match Batch.emitBatch p.body with
+      | .ok s => "OK " ++ hexOfString s
+      | .error _ => "ERR"
+      | .panic _ => "PANIC"
+    | .error => "ERR"
+    | .panic => "PANIC"
+    | .diverge => "DIVERGE"
+
 def handle (line : String) : String :=
+  if line.startsWith "FULLBATCH " then handleFullBatch ((line.drop 10).toString.splitOn " ") else
   if line.startsWith "CLI " then handleCli ((line.drop 4).toString.splitOn " ") else
   if line.startsWith "FULLBASH " then handleFullBash ((line.drop 9).toString.splitOn " ") else
   if line.startsWith "PARSE " then handleParse ((line.drop 6).toString.splitOn " ") else
